@@ -921,6 +921,10 @@ func (env *specEnv) call(x *SCall) SV {
 		name, _ := strconv.Unquote(lit.Val)
 		id := e.W.typeIDByName(name)
 		return SV{T: tEq(sx("i-typ", v.T), tInt(int64(id))), Sort: "Bool"}
+	case "fieldmap":
+		// fieldmap(x.f): the whole map "object reference -> value of field f" (for spec functions over linked structures)
+		hn, hs := env.fieldHeapOf(x.Args[0])
+		return SV{T: e.hget(env.cur, hn, hs), Sort: hs}
 	case "unbox":
 		// unbox(v, "T"): the T-typed value held by interface v (meaningful when typeis(v, "T"))
 		v := arg(0)
@@ -1276,4 +1280,39 @@ func (e *Enc) specLoadFacts(t Term, typ types.Type) {
 			e.assume(inRange(typ, t))
 		}
 	}
+}
+
+// fieldHeapOf resolves x.f (x a struct pointer) to the heap map of field f.
+func (env *specEnv) fieldHeapOf(x SExpr) (name, sort string) {
+	sel, ok := x.(*SSel)
+	if !ok {
+		env.fail("expected x.field")
+	}
+	b := env.eval(sel.X)
+	if b.GT == nil {
+		env.fail("fieldmap: untyped base")
+	}
+	t := b.GT
+	if pt, ok := t.Underlying().(*types.Pointer); ok {
+		t = pt.Elem()
+	}
+	st, ok := t.Underlying().(*types.Struct)
+	if !ok {
+		env.fail("fieldmap: not a struct")
+	}
+	if tc := env.e.W.typeContract(t); tc != nil {
+		for _, g := range tc.Ghosts {
+			if g.Name == sel.Sel {
+				srt, _ := ghostSort(env.e, g.Sort)
+				return "GF$" + typeKey(stripTypeArgs(t)) + "." + sel.Sel, fmt.Sprintf("(Array Int %s)", srt)
+			}
+		}
+	}
+	for i := 0; i < st.NumFields(); i++ {
+		if st.Field(i).Name() == sel.Sel {
+			return fieldHeap(t, i), fmt.Sprintf("(Array Int %s)", env.e.sortOf(st.Field(i).Type()))
+		}
+	}
+	env.fail("fieldmap: no field %s", sel.Sel)
+	return "", ""
 }
